@@ -3,8 +3,6 @@
 package crl
 
 import (
-	"time"
-
 	"github.com/gr33nbl00d/caddy-revocation-validator/crl/crlrepository"
 )
 
@@ -16,20 +14,6 @@ func (c *CRLRevocationChecker) VerifRepository() *crlrepository.Repository { ret
 
 func (c *CRLRevocationChecker) VerifUpdateWasRecentlyFinished() bool {
 	return c.updateWasRecentlyFinished()
-}
-
-// VerifResetLastUpdateFinishTime clears the process-global refresh timestamp so that
-// independent harness cases do not influence each other.
-func VerifResetLastUpdateFinishTime() {
-	crlUpdateMutex.Lock()
-	defer crlUpdateMutex.Unlock()
-	lastCrlUpdateFinishTime = time.Time{}
-}
-
-func VerifLastUpdateFinishTime() time.Time {
-	crlUpdateMutex.Lock()
-	defer crlUpdateMutex.Unlock()
-	return lastCrlUpdateFinishTime
 }
 
 func VerifWorkDirsInUse() map[string]int {
